@@ -11,6 +11,7 @@ package main
 import (
 	"fmt"
 	"math/big"
+	"regexp"
 	"runtime/debug"
 	"sort"
 	"strings"
@@ -60,13 +61,20 @@ func (s *Sim) stackNoOrbiter() porttypes.IBCModule {
 	return st
 }
 
+// rePtr: ibc-go's transfer module formats a math.Int with %d in one error ("amount must be strictly
+// positive: got {824679067200}"), which prints the address of the underlying big.Int. That text reaches
+// an event attribute of the ICS-20 application (not of orbiter); it is normalised before comparing.
+var rePtr = regexp.MustCompile(`\{[0-9]{6,}\}`)
+
+func normPtr(s string) string { return rePtr.ReplaceAllString(s, "{ptr}") }
+
 func renderEvents(evs sdk.Events) []string {
 	var out []string
 	for _, e := range evs {
 		var sb strings.Builder
 		sb.WriteString(e.Type)
 		for _, a := range e.Attributes {
-			sb.WriteString(" " + a.Key + "=" + a.Value)
+			sb.WriteString(" " + a.Key + "=" + normPtr(a.Value))
 		}
 		out = append(out, sb.String())
 	}
@@ -298,7 +306,26 @@ func firstDiff(a, b []string) string {
 	}
 	for i := 0; i < n; i++ {
 		if a[i] != b[i] {
-			return fmt.Sprintf("#%d: %.200q vs %.200q", i, a[i], b[i])
+			// show the neighbourhood of the first differing byte
+			k := 0
+			for k < len(a[i]) && k < len(b[i]) && a[i][k] == b[i][k] {
+				k++
+			}
+			lo := k - 60
+			if lo < 0 {
+				lo = 0
+			}
+			cut := func(s string) string {
+				hi := k + 100
+				if hi > len(s) {
+					hi = len(s)
+				}
+				if lo > len(s) {
+					return ""
+				}
+				return s[lo:hi]
+			}
+			return fmt.Sprintf("#%d differs at byte %d: ...%q vs ...%q", i, k, cut(a[i]), cut(b[i]))
 		}
 	}
 	return fmt.Sprintf("lengths %d vs %d", len(a), len(b))
